@@ -1,9 +1,10 @@
 (* Properties/C12.v — Chow-Liu tree -> circuit conversion is exact (proved for every tree shape,
-   root, labelling and evidence pattern); validity / structured decomposability / determinism of
-   the output are certificate-checked per run (C12_structure_partial). *)
+   root, labelling and evidence pattern); smoothness, decomposability and
+   normalisation of the output are proved too (C12_valid); structured decomposability and
+   determinism are certificate-checked per run (C12_structure_partial). *)
 From Coq Require Import List Arith ZArith Ring Bool.
 From DV Require Import Model.Core Model.Clt Model.Leaves Model.ToPc
-  Proofs.CoreFacts Proofs.CltFacts Proofs.PruneFacts Proofs.ToPcFacts.
+  Proofs.CoreFacts Proofs.CltFacts Proofs.PruneFacts Proofs.ToPcFacts Proofs.ToPcValid.
 Import ListNotations.
 
 Section C12.
@@ -32,7 +33,21 @@ Section C12.
         val T t0 t1 tadd tmul (leaf T) lval res n r = up T t0 t1 tadd tmul t 0%Z r /\
         val T t0 t1 tadd tmul (leaf T) lval res p r = up T t0 t1 tadd tmul t 1%Z r.
   Proof. exact (topc_spec T t0 t1 tadd tmul SRth). Qed.
+
+  (* the converted circuit is smooth, decomposable, children-first and normalised (valid /\ normalised),
+     for every tree with distinct binary variables and normalised CPT rows; both root-level sums
+     have the tree's variable set as scope (duplicate free) *)
+  Variable dom : nat -> list Z.
+  Theorem C12_valid : forall t : ctree T, tree_ok T t1 tadd dom t ->
+      forall acc, valid T t0 tadd dom (leaf T) lval acc -> normalised T t0 t1 tadd (leaf T) lval acc ->
+      let '(res, (n, p)) := topc T t0 t1 t acc in
+      (exists ext, res = acc ++ ext) /\ valid T t0 tadd dom (leaf T) lval res /\ normalised T t0 t1 tadd (leaf T) lval res /\
+      length acc <= n < length res /\ length acc <= p < length res /\
+      scope_of T (leaf T) res p = scope_of T (leaf T) res n /\ NoDup (scope_of T (leaf T) res n) /\
+      (forall v, In v (scope_of T (leaf T) res n) <-> In v (vars T t)).
+  Proof. exact (topc_valid T t0 t1 tadd tmul SRth dom). Qed.
 End C12.
 
 Print Assumptions C12_vals.
 Print Assumptions C12_vals_in_context.
+Print Assumptions C12_valid.
